@@ -461,3 +461,10 @@ func NamedTypeName(t types.Type) string {
 	}
 	return ""
 }
+
+// DecomposeCond returns the atomic facts implied by cond having the given truth value.
+func DecomposeCond(cond ast.Expr, truth bool) []Fact {
+	var out []Fact
+	decompose(cond, truth, nil, &out)
+	return out
+}
